@@ -1790,7 +1790,44 @@ func monitorC26(c *nsCase, script string, out *Out, cs string) {
 
 // classification of a machine/interpreter disagreement by the language feature involved (tags feed known findings)
 func nsC26Tag(c *nsCase, msg string) string {
+	if t := nsC26SaveArith(c); t != "" {
+		return msg + " " + t
+	}
 	return msg + " " + nsC26Class(msg)
+}
+
+// `save <m1> + <m2> from acc` (monetary arithmetic in a save statement): the machine's compiler visits the expression without
+// emitting the addition and saves the LEFT-MOST operand only (VisitSaveFromAccount: VisitExpr(mon, false) + PushAddress(lhsAddr)).
+// A disagreement is attributed to that defect only when it is fully explained by it: the interpreter, run on the script with
+// every such save cut down to its left-most operand, answers exactly as the machine did on the original.
+func nsC26SaveArith(c *nsCase) string {
+	has := false
+	c2 := *c
+	c2.Stmts = append([]nsStmt{}, c.Stmts...)
+	for k, st := range c2.Stmts {
+		if st.K == "savemon" && st.M != nil && (st.M.K == "add" || st.M.K == "sub") {
+			m := st.M
+			for m.K == "add" || m.K == "sub" {
+				m = m.L
+			}
+			st.M = m
+			c2.Stmts[k] = st
+			has = true
+		}
+	}
+	if !has {
+		return ""
+	}
+	m := runAdapter(false, c.text(), c)
+	i := runAdapter(true, c2.text(), &c2)
+	if m.Class != i.Class {
+		return ""
+	}
+	if m.Class == "ok" && (strings.Join(nonZero(m.Posts), ", ") != strings.Join(nonZero(i.Posts), ", ") ||
+		mapStr(m.TxMeta) != mapStr(i.TxMeta) || mapStr(m.AccMeta) != mapStr(i.AccMeta)) {
+		return ""
+	}
+	return "[c26-save-arith-left-only]"
 }
 
 var nsC26Feature = func(c *nsCase) string { return "" }
